@@ -117,4 +117,5 @@ def search_spec(draw, max_geos=6, min_geos=1, constraint_p=0.5, allow_budget=Tru
   panel = draw(panel_spec(max_geos=max_geos, min_geos=min_geos, max_dates=max_dates))
   elig = draw(eligibility_spec(panel['ids'], elig_style))
   params = draw(params_spec(panel['n_test'], panel['n_dates'], len(panel['ids']), constraint_p, allow_budget, allow_share, degenerate))
-  return {'panel': panel, 'elig': elig, 'params': params}
+  return {'panel': panel, 'elig': elig, 'params': params,
+          'history': draw(st.sampled_from([None, None, None, 'shared-data', 'reused-data']))}
